@@ -49,11 +49,16 @@ func tableMaxN(L *LState) int {
 
 func tableRemove(L *LState) int {
 	tbl := L.CheckTable(1)
-	if L.GetTop() == 1 {
-		L.Push(tbl.Remove(tbl.Len()))
-	} else {
-		L.Push(tbl.Remove(L.CheckInt(2)))
+	n := tbl.Len()
+	pos := n
+	if L.GetTop() != 1 {
+		pos = L.CheckInt(2)
 	}
+	if pos < 1 || pos > n {
+		// position is outside bounds: nothing to remove, no result
+		return 0
+	}
+	L.Push(tbl.Remove(pos))
 	return 1
 }
 
